@@ -742,7 +742,7 @@ def run(ctx):
 
     # ------------------------------------------------------------------ scalar path of both codecs (T2)
     bnums = boundary_numbers()
-    nscalar = 12 if not ctx.thorough else 90
+    nscalar = 6 if not ctx.thorough else 90
     chosen = classes[:len(systematic_bodies())] + [classes[rng.randrange(len(classes))] for _ in range(nscalar)] if classes else []
     msgs = {}
     for body, cname, E in chosen:
